@@ -91,6 +91,11 @@ class Snapshot:
 
 
 class ScriptSnapshot(Snapshot):
+    def start_snapshot(self):
+        super().start_snapshot()
+        # The colors come from the lights as raw numbers.
+        self.append('units raw\n')
+
     def setting(self, reg, value):
         self.append('{} {:.0f} '.format(reg.name.lower(), value))
 
